@@ -33,6 +33,28 @@ where
     }
 }
 
+#[cfg(feature = "verif")]
+impl<B> HuffmanContainer<B>
+where
+    B: Ord + Clone + std::fmt::Debug,
+{
+    /// Verification hook: a rendering of the complete state (code table, bytes, bit count,
+    /// raw symbols, statistics). The decoding table is a function of the code table.
+    #[must_use]
+    pub fn verif_fingerprint(&self) -> String {
+        match &self.inner {
+            Ok((huffman, bytes, bits)) => format!(
+                "coded codes={:?} bytes={:?} bits={} stats={:?}",
+                huffman.verif_codes(),
+                bytes,
+                bits,
+                self.stats
+            ),
+            Err(raw) => format!("raw symbols={:?} stats={:?}", raw, self.stats),
+        }
+    }
+}
+
 impl<B: Ord + Clone> Clone for HuffmanContainer<B> {
     fn clone(&self) -> Self {
         Self {
@@ -577,6 +599,12 @@ mod huffman {
             }
 
             Huffman { encode, decode }
+        }
+
+        /// Verification hook: the code table as `(symbol, (bits, code))` pairs.
+        #[cfg(feature = "verif")]
+        pub fn verif_codes(&self) -> Vec<(&T, (usize, u64))> {
+            self.encode.iter().map(|(k, v)| (k, *v)).collect()
         }
 
         /// Inserts a symbol, and
